@@ -7,7 +7,7 @@ from vlib import parse_pairs
 ID = "C11"
 THEOREMS = [("FlatModel.Props.C11", t) for t in ("FC.C11.hit_or_miss", "FC.C11.forgets_on_reset", "FC.C11.only_equal")]
 LEAN_TARGETS = ["FlatModel.Generated.Covered"]
-PROFILES = {"quick": ["checked"], "thorough": ["checked", "wrapping"], "search": ["checked"]}
+PROFILES = {"quick": ["checked", "wrapping"], "thorough": ["checked", "wrapping"], "search": ["checked"]}
 RULE = ("push sequences over 2..3-value domains with runs, alternations, equal-after-clear, equal-after-merge, equal-after-clone, "
         "NaN; top-level collapse regions: the returned index equals the previous one iff the value == the previous value, and used "
         "heap bytes do not change on a hit; collapse nested in tuples/columns/slices/consec: all ordinals re-read; exhaustive "
